@@ -249,6 +249,36 @@ def sig_oracle_tx(sig, key, code, sv, tx, idx=0):
 
 # --------------------------------------------------------------------------- pycoin drivers
 
+class Hang(Exception):
+    pass
+
+
+class time_limit(object):
+    """a pycoin call that does not return within `secs` is reported as an exception ("hang"), so a change
+    that makes the interpreter loop ends as a violation of the case, not as a stuck check"""
+
+    def __init__(self, secs=30):
+        self.secs = secs
+
+    def _alarm(self, *a):
+        raise Hang("no result after %s s" % self.secs)
+
+    def __enter__(self):
+        import signal
+        import threading
+        self.on = threading.current_thread() is threading.main_thread()
+        if self.on:
+            self.old = signal.signal(signal.SIGALRM, self._alarm)
+            signal.setitimer(signal.ITIMER_REAL, self.secs)
+
+    def __exit__(self, *a):
+        if self.on:
+            import signal
+            signal.setitimer(signal.ITIMER_REAL, 0)
+            signal.signal(signal.SIGALRM, self.old)
+        return False
+
+
 def _flagbits(names):
     from pycoin.satoshi import flags as F
     v = 0
@@ -293,7 +323,8 @@ def run_spend(case):
     if "tx" in case:
         spend, idx = real_tx(case)
         try:
-            spend.check_solution(idx, flags=_flagbits(case["flags"]))
+            with time_limit():
+                spend.check_solution(idx, flags=_flagbits(case["flags"]))
             return ("ok",)
         except ScriptError as e:
             return ("fail", str(e.args[0]) if e.args else "")
@@ -304,7 +335,8 @@ def run_spend(case):
                          int.from_bytes(bytes(case["ctx"]["locktime"]), "little"),
                          int.from_bytes(bytes(case["ctx"]["sequence"]), "little"))
     try:
-        spend.check_solution(0, flags=_flagbits(case["flags"]))
+        with time_limit():
+            spend.check_solution(0, flags=_flagbits(case["flags"]))
         return ("ok",)
     except ScriptError as e:
         return ("fail", str(e.args[0]) if e.args else "")
@@ -342,7 +374,8 @@ def run_eval(case, z=None, trace=None):
             return None
         vm.traceback_f = tb
     try:
-        st = vm.eval_script()
+        with time_limit():
+            st = vm.eval_script()
         return ("ok", [bytes(x) for x in st])
     except ScriptError as e:
         return ("fail", str(e.args[0]) if e.args else "")
